@@ -32,7 +32,7 @@ def confirm(seed):
         if rc:
             raise SystemExit(out)
         os.makedirs(f"{wt}/_seed", exist_ok=True)
-        sh(f"cp {seed}/demo*.py {wt}/_seed/ 2>/dev/null; cp -r {seed}/inputs {wt}/_seed/ 2>/dev/null")
+        sh(f"cp {seed}/*.py {wt}/_seed/ 2>/dev/null; cp -r {seed}/inputs {wt}/_seed/ 2>/dev/null")
         demo = "demo.py"
         env = dict(os.environ, PYTHONPATH=wt, PYTHONDONTWRITEBYTECODE="1")
         rc0, out0 = sh(f"timeout 600 /venv/bin/python _seed/{demo}", cwd=wt, env=env)
